@@ -17,7 +17,7 @@ import (
 )
 
 var bindTypes = []string{"Plain", "OptNull", "Tuple", "Join", "Pairs", "MapSI", "ListS", "UnionK", "UnionKinded", "UnionSP", "EnumS", "EnumI", "Outer", "Nested",
-	"MapSU", "ListU", "MapSP", "ListT", "MapSN", "ListN", "OptComp", "OptMore", "UnionKinded2", "ListNP", "AllOpt", "Swap", "LeadOpt", "TupleOpt", "UnionSP2", "TupleON", "ListNA", "MapSA", "WithAny", "LeadOptLP", "EnumX", "OptOne", "ListOO", "MapOO"}
+	"MapSU", "ListU", "MapSP", "ListT", "MapSN", "ListN", "OptComp", "OptMore", "UnionKinded2", "ListNP", "AllOpt", "Swap", "LeadOpt", "TupleOpt", "UnionSP2", "UnionSP0", "TupleON", "ListNA", "MapSA", "WithAny", "LeadOptLP", "EnumX", "OptOne", "ListOO", "MapOO"}
 var genTypes = []string{"Plain", "OptNull", "Tuple", "Join", "MapSI", "ListS", "UnionK", "UnionKinded", "UnionSP", "Outer",
 	"MapSU", "ListU", "MapSP", "ListT", "MapSN", "ListN", "OptComp", "OptMore", "UnionKinded2", "ListNP", "AllOpt", "Swap", "LeadOpt", "TupleOpt", "UnionSP2", "TupleON", "OptOne", "ListOO", "MapOO"}
 
